@@ -1,9 +1,23 @@
-// ---- spec vocabulary (prelude) ----
+// ---- spec vocabulary (prelude): module `spec` of the generated file ----
+// Everything here is specification or *proved* lemma text, except the items marked
+// ASSUMED (specifications of core functions that vstd does not cover).
 
 /// Ghost state of slot `i` of the backing array: `Some(e)` when the slot holds the
 /// live element `e`, `None` when it is uninitialised or its element was moved out
-/// or destroyed.  A function of the `pairs` field only.
-pub uninterp spec fn slot_of<K, V, const N: usize>(pairs: [MaybeUninit<(K, V)>; N], i: int) -> Option<(K, V)>;
+/// or destroyed.  A function of the `pairs` field only, defined through vstd's model of
+/// `MaybeUninit` (`mem_contents()`), so that the crate's direct uses of
+/// `assume_init_ref/_mut` on slots are checked against the same state.
+pub open spec fn slot_of<K, V, const N: usize>(pairs: [MaybeUninit<(K, V)>; N], i: int) -> Option<(K, V)> {
+    mu_opt(pairs@[i])
+}
+
+/// a `MaybeUninit` cell as an option
+pub open spec fn mu_opt<T>(m: MaybeUninit<T>) -> Option<T> {
+    match m.mem_contents() {
+        MemContents::Init(v) => Some(v),
+        MemContents::Uninit => None,
+    }
+}
 
 /// Ghost flag: the map is inside its own `Drop::drop` (only there may an element
 /// be destroyed while `len` still counts it).
@@ -19,60 +33,122 @@ pub open spec fn eq_symmetric<K: PartialEq>() -> bool {
     forall|a: K, b: K| #![trigger a.eq_spec(&b)] a.eq_spec(&b) == b.eq_spec(&a)
 }
 
+// ---- Borrow: `core::borrow::Borrow::borrow` has no vstd specification.  The trait is
+// given an external specification whose only clause is: *if* the impl is declared
+// lawful (`obeys_borrow`), the result is the deterministic `borrow_spec` of the argument.
+pub uninterp spec fn borrow_spec<K: ?Sized, Q: ?Sized>(k: &K) -> &Q;
+pub uninterp spec fn obeys_borrow<K: ?Sized, Q: ?Sized>() -> bool;
+
+#[verifier::external_trait_specification]
+pub trait ExBorrow<Borrowed: ?Sized> {
+    type ExternalTraitSpecificationFor: core::borrow::Borrow<Borrowed>;
+    fn borrow(&self) -> (r: &Borrowed)
+        ensures obeys_borrow::<Self, Borrowed>() ==> r == borrow_spec::<Self, Borrowed>(self);
+}
+
+/// hypothesis of C01's lookups: `Borrow` is a deterministic function and `Q`'s `==`
+/// follows its specification
+pub open spec fn lawful<K: Borrow<Q>, Q: PartialEq + ?Sized>() -> bool {
+    obeys_borrow::<K, Q>() && Q::obeys_eq_spec()
+}
+
+/// the stored key `stored` answers a lookup by `q`
+pub open spec fn matches<K: Borrow<Q>, Q: PartialEq + ?Sized>(stored: K, q: &Q) -> bool {
+    borrow_spec::<K, Q>(&stored).eq_spec(q)
+}
+
+// ---- trigger plumbing (all proved): connects the terms that vstd's slice / iterator
+// specifications speak about with `slot_of`
+pub broadcast proof fn lemma_slot_link<K, V, const N: usize>(pairs: [MaybeUninit<(K, V)>; N], i: int)
+    ensures (#[trigger] pairs@[i]).mem_contents().is_init() == slot_of(pairs, i).is_some(),
+        pairs@[i].mem_contents().is_init() ==> slot_of(pairs, i) == Some(pairs@[i].mem_contents().value()),
+{}
+
+pub broadcast proof fn lemma_slot_wrap<K, V, const N: usize>(m: Map<K, V, N>, i: int)
+    ensures #[trigger] slot_of(m.pairs, i) == m.slot(i),
+{}
+
+pub broadcast proof fn lemma_subrange_elem<A>(s: Seq<A>, a: int, b: int, i: int)
+    requires 0 <= a <= i < b <= s.len(),
+    ensures #![trigger s.subrange(a, b), s[i]] s.subrange(a, b)[i - a] == s[i],
+{}
+
+pub broadcast proof fn lemma_as_ref_elem<A>(s: Seq<A>, i: int)
+    requires 0 <= i < s.len(),
+    ensures #![trigger s.as_ref(), s[i]] *s.as_ref()[i] == s[i],
+{}
+
 impl<K, V, const N: usize> Map<K, V, N> {
-    pub closed spec fn slot(&self, i: int) -> Option<(K, V)> {
+    pub open spec fn slot(&self, i: int) -> Option<(K, V)> {
         slot_of(self.pairs, i)
     }
 
-    pub closed spec fn slen(&self) -> usize {
+    pub open spec fn slen(&self) -> usize {
         self.len
     }
 
-    pub closed spec fn in_drop(&self) -> bool {
+    pub open spec fn in_drop(&self) -> bool {
         destroying(self.pairs)
     }
 
     /// representation invariant without key uniqueness: exactly the slots below
     /// `len` are live
-    pub closed spec fn wf_weak(&self) -> bool {
+    pub open spec fn wf_weak(&self) -> bool {
         self.len <= N && forall|i: int| 0 <= i < N ==> (#[trigger] slot_of(self.pairs, i)).is_some() == (i < self.len)
     }
 
     /// key stored in live slot i
-    pub closed spec fn key_at(&self, i: int) -> K {
+    pub open spec fn key_at(&self, i: int) -> K {
         slot_of(self.pairs, i).unwrap().0
     }
 
+    /// value stored in live slot i
+    pub open spec fn val_at(&self, i: int) -> V {
+        slot_of(self.pairs, i).unwrap().1
+    }
+
     /// some live slot holds a key equal to k (by the key type's `==` specification)
-    pub closed spec fn has_key(&self, k: K) -> bool where K: PartialEq {
+    pub open spec fn has_key(&self, k: K) -> bool where K: PartialEq {
         exists|j: int| 0 <= j < self.len && (#[trigger] slot_of(self.pairs, j)).unwrap().0.eq_spec(&k)
     }
 
+    /// `j` is the first live slot whose key answers a lookup by `q`
+    pub open spec fn first_match<Q: PartialEq + ?Sized>(&self, q: &Q, j: int) -> bool where K: Borrow<Q> {
+        &&& 0 <= j < self.len
+        &&& matches(slot_of(self.pairs, j).unwrap().0, q)
+        &&& forall|i: int| 0 <= i < j ==> !matches((#[trigger] slot_of(self.pairs, i)).unwrap().0, q)
+    }
+
+    /// no live slot answers a lookup by `q`
+    pub open spec fn no_match<Q: PartialEq + ?Sized>(&self, q: &Q) -> bool where K: Borrow<Q> {
+        forall|i: int| 0 <= i < self.len ==> !matches((#[trigger] slot_of(self.pairs, i)).unwrap().0, q)
+    }
+
     /// the keys of the live slots are pairwise unrelated by `rel` (in both orders)
-    pub closed spec fn distinct_by(&self, rel: spec_fn(K, K) -> bool) -> bool {
+    pub open spec fn distinct_by(&self, rel: spec_fn(K, K) -> bool) -> bool {
         forall|i: int, j: int| #![trigger slot_of(self.pairs, i), slot_of(self.pairs, j)]
             0 <= i < self.len && 0 <= j < self.len && i != j
                 ==> !rel(slot_of(self.pairs, i).unwrap().0, slot_of(self.pairs, j).unwrap().0)
     }
 
     /// C05: keys of the live slots are pairwise different under the key type's `==`
-    pub closed spec fn keys_distinct(&self) -> bool where K: PartialEq {
+    pub open spec fn keys_distinct(&self) -> bool where K: PartialEq {
         self.distinct_by(eq_rel::<K>())
     }
 
     /// every slot is empty
-    pub closed spec fn all_empty(&self) -> bool {
+    pub open spec fn all_empty(&self) -> bool {
         forall|i: int| 0 <= i < N ==> (#[trigger] slot_of(self.pairs, i)).is_none()
     }
 }
 
-/// `core::mem::drop(x)` destroys `x` and has no other effect on the caller's state
-/// (assumed: vstd has no specification for it).  It may unwind.
+/// ASSUMED: `core::mem::drop(x)` destroys `x` and has no other effect on the caller's
+/// state (vstd has no specification for it).  It may unwind.
 pub assume_specification<T>[ core::mem::drop::<T> ](x: T)
     opens_invariants none;
 
-/// `core::mem::replace(dest, src)` stores `src` and returns the previous value
-/// (assumed: vstd has no specification for it).
+/// ASSUMED: `core::mem::replace(dest, src)` stores `src` and returns the previous value
+/// (vstd has no specification for it).
 pub assume_specification<T>[ core::mem::replace::<T> ](dest: &mut T, src: T) -> (r: T)
     ensures *final(dest) == src, r == *old(dest),
     opens_invariants none
@@ -80,38 +156,38 @@ pub assume_specification<T>[ core::mem::replace::<T> ](dest: &mut T, src: T) -> 
 
 impl<'a, K, V, const N: usize> OccupiedEntry<'a, K, V, N> {
     /// the entry points at a live slot of a well-formed table
-    pub closed spec fn wf(&self) -> bool {
+    pub open spec fn wf(&self) -> bool {
         self.table.wf_weak() && self.index < self.table.slen()
     }
 
     /// the (key, value) the entry stands for
-    pub closed spec fn cur(&self) -> (K, V) {
+    pub open spec fn cur(&self) -> (K, V) {
         self.table.slot(self.index as int).unwrap()
     }
 
     /// the table as the entry sees it now / when the borrow ends
-    pub closed spec fn tbl(&self) -> Map<K, V, N> {
+    pub open spec fn tbl(&self) -> Map<K, V, N> {
         *self.table
     }
 
     #[verifier::prophetic]
-    pub closed spec fn tbl_after(&self) -> Map<K, V, N> {
+    pub open spec fn tbl_after(&self) -> Map<K, V, N> {
         *final(self.table)
     }
 
-    pub closed spec fn idx(&self) -> usize {
+    pub open spec fn idx(&self) -> usize {
         self.index
     }
 }
 
 impl<K, V, const N: usize> VacantEntry<'_, K, V, N> {
-    pub closed spec fn vkey(&self) -> K {
+    pub open spec fn vkey(&self) -> K {
         self.key
     }
 }
 
 impl<T, const N: usize> Set<T, N> {
-    pub closed spec fn inner(&self) -> Map<T, (), N> {
+    pub open spec fn inner(&self) -> Map<T, (), N> {
         self.map
     }
 }
